@@ -24,6 +24,16 @@ def generate(rng, opts):
     nroots = r.choice([1, 1, 2, 2, 3])
     roots = []
     for _ in range(nroots):
+        if r.random() < 0.06:
+            # long numeric lists dense in NaN/inf: the sizes at which sorting, partitioning and reducing switch
+            # algorithm (insertion sort below 17 items, median-of-three partition above)
+            dt = r.choice(["float64", "float64", "float32", "int64", "int8"])
+            if r.random() < 0.5:
+                t, n = ["num", dt], r.randint(17, 48)
+            else:
+                t, n = ["list", ["num", dt]], r.choice([1, 2, 3])
+            roots.append({"type": t, "spec": lg.SpecGen(r, opts, long_lists=True, special_rate=r.choice([0.1, 0.3, 0.6])).array(t, n)})
+            continue
         t = lg.gen_type(r, 0, opts)
         n = r.choice([0, 0, 1, 1, 2, 3, 3, 5, 8])
         roots.append({"type": t, "spec": lg.SpecGen(r, opts).array(t, n)})
@@ -105,6 +115,19 @@ def first_difference(a, b):
         if x != y:
             return x.strip()[:300], y.strip()[:300]
     return "(%d lines)" % len(la), "(%d lines)" % len(lb)
+
+
+def max_list_len(v):
+    """the longest list anywhere in a decoded value (the operand size that decides the cost of combinations)"""
+    if isinstance(v, list):
+        return max([len(v)] + [max_list_len(x) for x in v])
+    if isinstance(v, tuple) and v and v[0] == "rec":
+        return max([0] + [max_list_len(x) for _, x in v[2]])
+    if isinstance(v, tuple) and v and v[0] in ("tup",):
+        return max([0] + [max_list_len(x) for x in v[1]])
+    if isinstance(v, tuple) and v and v[0] == "scalar":
+        return max_list_len(v[1])
+    return 0
 
 
 def read_value(node, h):
@@ -251,7 +274,7 @@ def execute(node, case, rec, opts):
             slots.append(Slot(0, None))
             slots[-1].alive = False
             continue
-        if op["op"] == "combinations" and node.length(slots[i].h) > 12:
+        if op["op"] == "combinations" and max_list_len(slots[i].value) > 12:
             # combinatorial blow-up is legitimate work, not a hang: keep the operand small
             slots.append(Slot(0, None))
             slots[-1].alive = False
